@@ -49,6 +49,13 @@ MENU = [
     (r'\me{a}\me^b{c}', 'A', False),
     (r'{\me^ }x', 'A', True),                                              # an embellishment marker with nothing to read after it
     (r'{\me_ %c' + '\n' + r'}x', 'A', False),
+    # child constructs inside delimited ([..], (..), <..>) arguments, in math and in text mode, under both databases
+    (r'$\sqrt[\alpha{n}]{\frac{x}y}$ \sqrt[\textbf{m}]{z}', 'D', False),
+    (r'\mo[\mm{x}\mo[y]{z}]{a}$\mo[{n}\mm{p}]{q}\mr(\mm{c})$\md<\mm{e}>f', 'A', False),
+    # a macro that takes arguments, bare, as the single-token argument of another one (argument types m, r, d, o)
+    (r'$\hat\vec x$ \textbf\emph y \textbf\sqrt z', 'D', False),
+    (r'\mm\mr(c) \mm\md<e> \mm\mo[a]{b} \mm\mm x', 'A', True),
+    (r'\mm\mr(c)', 'A', False),
     # no explicit context: every call builds a new default database from the module-level specification tables
     (r'\begin{theorem}[Main]x\end{theorem}\begin{proof}[p]y\end{proof}\begin{lemma}z\end{lemma}', 'N', False),
     (r'\textbf{a}\sqrt[3]{x}\begin{enumerate}[a]\item[b] c\end{enumerate}\begin{align}x\end{align}', 'N', False),
